@@ -1,6 +1,7 @@
 import HC.Proto.H11
 import HC.Pure.Utils
 import HC.Props.C06
+import HC.Proto.H2Credit
 /-!
 # C01 — HTTP request delivery fidelity (scope and body reach the application exactly)
 
@@ -9,7 +10,7 @@ libraries yield.  That the libraries' events carry the client's bytes (for every
 sampled end-to-end with every two-way split of short requests.
 -/
 namespace HC.Props.C01
-open HC HC.Stream HC.Lib HC.Proto.H11 HC.Utils
+open HC HC.Stream HC.Lib HC.Proto.H11 HC.Utils HC.Extracted
 
 /-! ### scope -/
 
@@ -61,6 +62,61 @@ example : filterPseudo [(":method".b, "GET".b), (":authority".b, "quart".b), (":
     = [("host".b, "quart".b), ("user-agent".b, "x".b)] := by decide
 example : filterPseudo [(":path".b, "/".b), ("host".b, "h".b), ("a".b, "1".b), ("a".b, "2".b)] = [("host".b, "h".b), ("a".b, "1".b), ("a".b, "2".b)] := by
   decide
+
+/-! ### server names: whether an instance is started does not depend on how the client spelt the header names -/
+
+/-- h11 reports every header twice: `event.headers` (names lower-cased) and `headers.raw_items()` (the client's
+    spelling, what the scope carries when `h11_pass_raw_headers` is configured) -/
+def lowerNames (hs : Headers) : Headers := hs.map (fun h => (Bytes.lower h.1, h.2))
+
+private theorem lowerB_idem (b : UInt8) : Bytes.lowerB (Bytes.lowerB b) = Bytes.lowerB b := by
+  unfold Bytes.lowerB
+  split
+  · rename_i h
+    have h32 : (b + 32).toNat = b.toNat + 32 := by
+      rw [UInt8.toNat_add]; simp; omega
+    rw [if_neg]; rw [h32]; omega
+  · rfl
+
+private theorem lower_idem (bs : Bytes) : Bytes.lower (Bytes.lower bs) = Bytes.lower bs := by
+  simp [Bytes.lower, lowerB_idem]
+
+/-- the extracted host-header test (`ReqGlue.serverNameKey`, from `utils.valid_server_name`) is case-insensitive -/
+theorem server_name_key_caseless (n : Bytes) : ReqGlue.serverNameKey (Bytes.lower n) = ReqGlue.serverNameKey n := by
+  simp [ReqGlue.serverNameKey, lower_idem]
+
+/-- … and it recognises exactly the name `host` -/
+theorem server_name_key_iff (n : Bytes) : ReqGlue.serverNameKey n = true ↔ Bytes.lower n = "host".b := by
+  simp [ReqGlue.serverNameKey]
+
+/-- **the server-name decision is the same for the raw header list and for the lower-cased one** -/
+theorem server_name_spelling (cfg : Cfg) (raw : Headers) :
+    validServerName cfg (lowerNames raw) = validServerName cfg raw := by
+  have hf : ∀ l : Headers, ((lowerNames l).find? (fun h => ReqGlue.serverNameKey h.1)).map (·.2) =
+      (l.find? (fun h => ReqGlue.serverNameKey h.1)).map (·.2) := by
+    intro l
+    induction l with
+    | nil => rfl
+    | cons a t ih =>
+      have ha : ReqGlue.serverNameKey (Bytes.lower a.1) = ReqGlue.serverNameKey a.1 := server_name_key_caseless a.1
+      show (List.find? _ ((Bytes.lower a.1, a.2) :: lowerNames t)).map _ = _
+      simp only [List.find?_cons, ha]
+      cases ReqGlue.serverNameKey a.1
+      · exact ih
+      · rfl
+  simp only [validServerName, hf]
+
+/-- **configuring raw headers changes the header list of the scope, never whether the instance is started**
+    (`hraw` is what h11 guarantees about a `Request` event; the harness checks it on every tapped event) -/
+theorem server_name_raw_indep (cfg : Cfg) (r : ReqEv) (ws : Bool) (hraw : r.headers = lowerNames r.rawHeaders) :
+    validServerName cfg (scopeOf cfg r ws).headers = validServerName cfg r.headers := by
+  simp only [scopeOf]
+  cases cfg.rawHeaders
+  · rfl
+  · simp [hraw, server_name_spelling]
+
+example : validServerName { keepAliveMax := 1, rawHeaders := true, serverNames := ["x".b] } [("Host".b, "x".b)] = true := by decide
+example : validServerName { keepAliveMax := 1, serverNames := ["x".b] } [("HOST".b, "y".b), ("host".b, "x".b)] = false := by decide
 
 /-! ### body: every parser event is forwarded to the live instance, in order, nothing invented -/
 
@@ -136,6 +192,34 @@ theorem segmentation_indep (c1 c2 : List Bytes) (complete : Bool) (h : c1.flatte
     concatBodies (bodyPuts c1 complete) = concatBodies (bodyPuts c2 complete) ∧
     finals (bodyPuts c1 complete) = finals (bodyPuts c2 complete) := by
   simp [body_concat, h]
+
+/-! ### HTTP/2: every received DATA byte is acknowledged, whether or not its stream is still there -/
+open HC.Proto.H2Credit in
+/-- handling one `DataReceived` acknowledges exactly its flow-controlled length — also when the response has already
+    completed and the stream is forgotten (`KeyError` path).  The counts are extracted from `_handle_events`. -/
+theorem data_acked (e : DataEv) : acked e = e.len := by
+  cases e with
+  | mk len live => cases live <;> simp [acked, ReqGlue.dataAcksDelivered, ReqGlue.dataAcksMissing]
+
+open HC.Proto.H2Credit in
+/-- **the connection's receive window is conserved**: after any sequence of DATA events, for live and for completed
+    streams in any mix, everything that was consumed has been given back — so the body of a later request on the
+    connection can always be sent (the window never leaks away) -/
+theorem window_conserved (es : List DataEv) (w : Win) (hw : w.returned = w.consumed) :
+    (run w es).returned = (run w es).consumed := by
+  induction es generalizing w with
+  | nil => exact hw
+  | cons e es ih =>
+    apply ih
+    simp [HC.Proto.H2Credit.step, data_acked, hw]
+
+open HC.Proto.H2Credit in
+theorem window_available (es : List DataEv) (w0 : Nat) : (run {} es).available w0 = w0 := by
+  have := window_conserved es {} rfl
+  simp [Win.available, this]
+
+/-- the acknowledgement names the event's flow-controlled length (padding included) and the event's stream -/
+theorem data_ack_args : ReqGlue.dataAckArgs = ["event.flow_controlled_length, event.stream_id"] := by decide
 
 /-- **exactly one application instance per request**: the handling of a `Request` event for an allowed server name
     spawns exactly one instance, and (C06 `serial`) only when no other instance is live -/
